@@ -22,7 +22,11 @@ from ._random_state import RandomState
 def _choice_rng(state_data, a, size, replace, p, axis, shuffle):
     from ._expr import _rng_from_bitgen
 
-    state = _rng_from_bitgen(state_data)
+    # The graph holds this bit generator object itself: draw from a copy so that
+    # computing the same graph again reproduces the same block.
+    bitgen = type(state_data)()
+    bitgen.state = state_data.state
+    state = _rng_from_bitgen(bitgen)
     return state.choice(a, size=size, replace=replace, p=p, axis=axis, shuffle=shuffle)
 
 
